@@ -3,7 +3,7 @@ import seqcheck
 
 
 def knobs(r, i):
-    return {"unsampled": True, "multi": True, "threads": 1 + i % 3, "cycle_density": i % 3}
+    return {"unsampled": True, "multi": True, "threads": 1 + i % 3, "cycle_density": i % 3, "remote_children": i % 2 == 0}
 
 
 def mixed(first_unsampled):
